@@ -162,6 +162,40 @@ def shard(ctx, shard_no, nshards, n):
     if shard_no == 0:
         with ctx.timed('f23-family'):
             core.run_hypothesis(ctx, 'f23', from_tape(f23_cases, 32), body_f23, 40)
+        with ctx.timed('f24-family'):
+            run_f24_family(ctx)
+
+
+F24_WORDS = ('E', 'False', 'INF', 'NAN', 'PI', 'True', 'exists', 'forall', 'not')
+# other words with a meaning of their own elsewhere in the language: as field names behind a reference they print as written
+F24_CONTROL_WORDS = ('in', 'and', 'or', 'to', 'as', 'abs', 'len', 's', 'ms', 'id', 'no', 'within', 'implies')
+F24_FORMS = ('@{a}.{w} > 0', '@{a}.{w}', 'x > 0 and @{a}.{w} = 1', '@{a}.{w}.x > 0', '@{a}.{w}[0] > 0', 'not @{a}.{w}', 'x in [0 to @{a}.{w}]', 'x in {{1, @{a}.{w}}}')
+
+
+def run_f24_family(ctx):
+    """Labelled family for the known finding F24: a field named like a constant or a prefix keyword, read through the
+    event's own alias. Deterministic: every such word x eight positions x (own alias | alias of an earlier event | nested
+    field of the own message), and the same with words that are keywords elsewhere. Whatever the parser accepts must
+    make the round trip; only the own-alias rows of the nine words are expected to fail (and are matched as F24)."""
+    for words, label in ((F24_WORDS, 'reserved-word'), (F24_CONTROL_WORDS, 'other-keyword')):
+        for w in words:
+            for form in F24_FORMS:
+                texts = {
+                    'own-alias': 'globally: no t as A {' + form.format(a='A', w=w) + '}',
+                    'earlier-alias': 'globally: u as A causes t {' + form.format(a='A', w=w) + '}',
+                    'nested-own-field': 'globally: no t {' + form.replace('@{a}', 'pos').format(w=w) + '}',
+                }
+                for how, text in texts.items():
+                    inp = {'kind': 'property', 'text': text}
+                    try:
+                        r = 'holds' if sub_roundtrip(inp) is not None else 'rejected-by-parser'
+                    except Violation as v:
+                        if ctx.suppressed(v):
+                            r = 'known-finding'
+                        else:
+                            ctx.report(v)
+                            r = 'violation'
+                    ctx.case(text, r != 'rejected-by-parser', f'field-named-like-{label}:{how}:{r}', sample=text if r == 'known-finding' and form == F24_FORMS[0] else None)
 
 
 def run(ctx):
